@@ -7,9 +7,12 @@ package qos
 
 // ---- manager.go: as seen by session teardown (C16) ----
 
+// the buckets of the address leave both kernel maps whenever they are loaded -- also for a subscriber
+// the manager does not track (a policy installation that failed half way leaves an untracked bucket)
 //@ func (m *Manager) RemoveSubscriberQoS
-//@   trusted touches the QoS manager's own maps and kernel maps only
-//@   modifies nothing
+//@   modifies m.subscribers
+//@   ghost bpfDeletes mathint = 0
+//@   ensures err == nil ==> bpfDeletes == ite(m.qosEgress != nil, 1, 0) + ite(m.qosIngress != nil, 1, 0)
 //@   sets relQoS = relQoS + 1
 
 // ---- manager.go: the control-plane writer of the token buckets (C19: "the policy set through
